@@ -116,6 +116,24 @@ def judgeLine (j : J) (op : String) (outs : List String) : J × List String :=
         | none => (j, if out.startsWith "err" then [] else [vio j "sess:statement-without-database-accepted" s!"op=[{short}]"])
         | some c =>
           let sdb := (j.dbs.find? (·.1 == c)).map (·.2) |>.getD []
+          match stmt with
+          | .select q =>
+            -- a SELECT changes nothing; one that has a reference meaning on the database as the
+            -- acknowledged statements left it (Spec/Query.lean, the meaning the exec runs judge row by
+            -- row) must be answered; one without may be answered or refused with an error value
+            let fetch : Bytes → Option Exec.Table := fun n =>
+              (findTable sdb n).map fun t => ⟨t.cols.map (·.name.toUTF8.toList), t.rows.map (·.vals)⟩
+            let fields0 := match q.from_ with
+              | some tr => (match Spec.fromRows fetch tr with | some (_, f) => f | none => [])
+              | none => []
+            let hdr0 : List Exec.Field := match Exec.projectColumns q.list fields0 [] with | .ok (_, h) => h | _ => []
+            -- (`SELECT * ... GROUP BY` has a meaning - the rows - and is refused by the engine, `*` being no
+            -- column a GROUP BY could designate: C07_star_with_group_by_is_refused; the parser never builds
+            -- it with an aggregate)
+            let starGrouped := Exec.isStar q.list && (!q.groupBy.isEmpty || q.list.any fun d => Spec.isAgg d.item)
+            let meaningful := !starGrouped && (Spec.sortKeys q hdr0).isSome && (Spec.meaning fetch q).isSome
+            (j, if meaningful && out != "ok" then [vio j "sess:meaningful-select-refused" s!"db={c} got=[{out}] op=[{short}]"] else [])
+          | _ =>
           match specStmt sdb stmt with
           | some sdb' =>
             if out == "ok" then ({ j with dbs := j.dbs.map fun p => if p.1 == c then (c, sdb') else p }, [])
